@@ -60,6 +60,11 @@ CHECKS = {
   technique='TLA+ specs Integrator.tla (op-list machine = literal execution of one_timestep) and IntegratorProps.tla (property layer over event logs), model-checked by TLC over a grammar of programs (IntegratorMC.tla, which also emits the programs); compiled probe integrators/steppers and all shipped integrators run for real and decided by TLC (TraceIntegrator.tla)',
   text='TLC explores a universe of one_timestep programs (1-3 stages, op orders, acceleration evaluations with/without neighbour refresh, update_domain placements, py_stage hooks, ghosts) and checks that literal execution satisfies the property layer; the printed programs are compiled as probe integrators whose steppers do exact integer arithmetic and log every call, and each real run (event log and final data) is decided by TLC. All shipped Integrator subclasses are parsed from source and run with probe steppers.',
   note='Cross-array order inside a stage and particle order inside a loop are not demanded. Values computed with update_nnps=False after particles moved are not compared. Shipped steppers: event log and ghost-untouched clauses only.'),
+ 'C20': dict(
+  cat='model_checking', design_ref='DESIGN.md section 5 (C20), 4.4',
+  technique='TLA+ spec Setup.tla (symbol table, Required closure, contract Rejected <=> something missing, mechanism variants) with SetupMC.tla model-checked by TLC, which also enumerates the case universe; every case and every shipped equation/stepper class with one needed name removed is built with the real AccelerationEval / SPHCompiler / SPHEvaluator (never executed) and the outcome decided by TLC (TraceSetup.tla)',
+  text='The set-up contract (an equation or stepper that needs a property or constant explicitly or through the closure of the precomputed-symbol table which a destination/source array lacks, or names a non-existent array, must be rejected with an error naming the equation and a missing name; complete problems must be accepted) is specified in TLA+; the symbol table is transcribed and also dumped from the real code and compared by TLC. TLC enumerates equation shape x symbols x sources x group structure x one removal or misspelling; each case is constructed for real up to but excluding execution. All shipped equation and stepper classes are covered by the removal leg.',
+  note='Incomplete problems are never compiled or run. Symbol requirements are counted for loop arguments. Only the Cython backend.'),
 }
 
 NOT_APPLICABLE = {
